@@ -356,6 +356,61 @@ def t_guards(led, rid, ctx, res):
     led.floor(rid, "entry guards", n, 2)
 
 
+def t_contains(led, rid, ctx, res):
+    """a stored solution claims exactly the variables that existed when it was taken:
+    contains_domain_id(d) ⇔ d < number of domains (decided on a window)"""
+    from ..symexec import SymExec
+    from ..predalg import ev, Unknown
+    from ..flow import peel, show
+    lib = ctx.lib
+    n = 0
+    for f in lib.fns.values():
+        if f.name != "contains_domain_id" or "/tests" in f.file:
+            continue
+        ps = [p for p in SymExec(f).run() if not p.diverged and p.ret is not None]
+        n += 1
+        bad = None
+        try:
+            for d in range(0, 6):
+                for k in range(0, 6):
+                    def leaf(x):
+                        x = peel(x, calls=None)
+                        if x.k == "call" and x.a.name in ("num_domains", "len"):
+                            return k
+                        if x.k == "call" and x.a.name in ("index",):
+                            return d
+                        if x.k == "proj" and list(x.fields())[-1:] == ["id"]:
+                            return d
+                        if x.k == "arg":
+                            return d
+                        return None
+                    vals = set()
+                    for p in ps:
+                        ok = True
+                        for cond, val, others in p.conds:
+                            try:
+                                w = ev(cond, leaf)
+                            except Unknown:
+                                continue
+                            if (val is not None and w != val) or (val is None and others and w in others):
+                                ok = False
+                        if ok:
+                            vals.add(bool(ev(p.ret, leaf)))
+                    if vals != {d < k}:
+                        bad = "domain id %d with %d domains stored: answers %s" % (d, k, sorted(vals))
+                        break
+                if bad:
+                    break
+        except Unknown as u:
+            bad = "cannot be evaluated (%s)" % u
+        who = (f.self_adt or "?").rsplit("::", 1)[-1]
+        led.check(bad is None, rid, "%s::contains_domain_id" % who, f.span, "⇔ id < num_domains",
+                  "%s::contains_domain_id: %s — a variable created after the solution was taken is treated as "
+                  "part of it, and the brancher indexes the stored solution out of bounds on the next solve"
+                  % (who, bad))
+    led.floor(rid, "contains_domain_id implementations", n, 1)
+
+
 def run(ctx, led):
     lib = ctx.lib
     try:
@@ -380,3 +435,6 @@ def run(ctx, led):
              "C05-A3)", shared.assumptions_overwritten, ctx)
     run_rule(led, "T10", "posting functions are inert while an inconsistency is recorded", t_inert, ctx, res)
     run_rule(led, "T11", "ENTRY-GUARD: add_clause / add_propagator leave at once in every inconsistent state (guard truth tables interpreted from MIR)", t_guards, ctx, res)
+    from . import predrules as _pr
+    run_rule(led, "T12", "is_mutually_exclusive_with is sound, so extract_core does not panic on consistent assumptions (shared with C05-A12)", _pr.mutex_sound, ctx)
+    run_rule(led, "T13", "a stored solution claims exactly the variables that existed when it was taken", t_contains, ctx, res)
